@@ -20,8 +20,8 @@ GAPS = (0.0, 0.1, 0.5)
 
 def world_keys(tier, seed):
     keys = [("toy",)]
-    small = [worlds.WorldSpec(("+", "-"), True, False, 0, "rich"),
-             worlds.WorldSpec(("-", "+"), False, True, 1, "rich")]
+    small = [worlds.WorldSpec(("+", "-"), True, False, 0, "richd"),
+             worlds.WorldSpec(("-", "+"), False, True, 1, "richd")]
     if tier == "quick":
         keys += [small[seed % 2]]
     else:
@@ -89,7 +89,7 @@ class C02(Check):
                             continue
                         yield (wk, build, struct, planted, (), gap)
         if self.tier == "thorough":
-            for name in ("cyp2c19", "cyp2c9", "nat2", "tpmt", "cyp3a5", "dpyd" if False else "ugt1a1"):
+            for name in ("cyp2c19", "cyp2c9", "nat2", "tpmt", "cyp3a5", "ugt1a1", "cyp2a6", "cyp2b6"):
                 wk = ("shipped", name)
                 gene = worlds.gene_of(wk, "hg19")
                 ms = majors_of(gene, "1")
